@@ -176,6 +176,28 @@ func c30Encode(c *kit.Case, data []byte, k, parity int) (shards [][]byte, padded
 			c.Failf("shard %d has %d bytes, want %d (= padded length %d / %d data shards)", i, len(s), want, len(padded), k)
 		}
 	}
+	// each returned shard is the caller's own (a guarantor frames and ships them one by one):
+	// appending to one shard or writing within its capacity must not change any other shard,
+	// nor the input blob
+	snap := make([][]byte, len(shards))
+	for i, s := range shards {
+		snap[i] = append([]byte(nil), s...)
+	}
+	for i := range shards {
+		full := shards[i][:cap(shards[i])]
+		for j := len(shards[i]); j < len(full); j++ {
+			full[j] ^= 0x5A
+		}
+		_ = append(shards[i], 0xA5, 0xA5)
+	}
+	for i := range shards {
+		if !bytes.Equal(shards[i], snap[i]) {
+			c.Failf("shard %d of %d changed when its neighbours were appended to (the returned shards share memory; first difference at byte %d)", i, len(shards), c30FirstDiff(shards[i], snap[i]))
+		}
+	}
+	if !bytes.Equal(orig, data) {
+		c.Failf("appending to the returned shards modified the input blob")
+	}
 	return shards, padded
 }
 
